@@ -184,6 +184,37 @@ def run_case(R, kind, cap, off, n, r, cross):
             R.tags["update_from_xbuffer.self" + (".overlap" if n and abs(off - so) < n and off != so else "")] += 1
 
 
+def run_growth(R, kind, cap, r):
+    """`grow` moves the buffer "into fresh native storage" (copy_to_native of the whole old capacity): EVERY old byte is carried over,
+    wherever the allocator's free list says free space is - bytes may have been written at explicit offsets (`update_from_buffer`,
+    objects placed with `_offset=`) without any allocation.  Oracle only: states of the free list x growth amounts."""
+    for hist in ("fresh", "full", "hole-then-full", "hole-and-tail", "tail"):
+        b, before = mk_buffer(kind, cap, r)
+        ctx = {"kind": kind, "cap": cap, "prim": "grow", "history": hist}
+        try:
+            if hist == "full" and cap:
+                b.allocate(cap)
+            elif hist == "hole-then-full" and cap >= 4:
+                o1 = b.allocate(cap // 4); b.allocate(cap - cap // 4); b.free(o1, cap // 4)
+            elif hist == "hole-and-tail" and cap >= 4:
+                o1 = b.allocate(cap // 4); b.allocate(cap // 4); b.free(o1, cap // 4)
+            elif hist == "tail" and cap >= 2:
+                b.allocate(cap // 2)
+            if image(b) != before:
+                R.fail("grow:allocation-changed-bytes", f"{kind} cap={cap} {hist}: allocate / free changed bytes of the buffer", ctx)
+                continue
+            add = r.choice([1, 8, cap or 3, 1000])
+            b.grow(add)
+            after = image(b)
+            R.tags["grow." + hist] += 1
+            if b.capacity != cap + add or len(after) != cap + add or after[:cap] != before:
+                k = next((i for i in range(min(cap, len(after))) if after[i] != before[i]), None)
+                R.fail("grow:old-bytes-lost", f"{kind}.grow({add}) cap={cap}, free list state `{hist}`: capacity {b.capacity}, storage of {len(after)} bytes, "
+                       f"first old byte that differs: {k}", ctx)
+        except Exception as ex:
+            R.fail(f"grow:raises:{type(ex).__name__}", f"{kind} cap={cap} {hist}: {str(ex)[:160]}", ctx)
+
+
 def run_views(R, kind, cap, r, n_cases):
     """to_nplike views alias; update_from_nplike for dtype pairs and source layouts"""
     for _ in range(n_cases):
@@ -301,6 +332,9 @@ def run_all(tier, seed):
                 run_case(R, kind, cap, off, n, r, cross_all)
                 distinct += 1
             run_views(R, kind, cap, r, 40 if tier == "quick" else 600)
+            run_growth(R, kind, cap, r)
+        for cap in (0, 1, 5, 64):
+            run_growth(R, kind, cap, r)
     got = common.run_driver_sharded("prim", [[l] for l in R.lines], nproc=8)
     mism = []
     for l, e, g, c in zip(R.lines, R.expect, got, R.ctxs):
